@@ -24,6 +24,24 @@ use crate::utils;
 use crate::value::Value;
 use crate::vm::Vm;
 
+/// The receiver of a native method: a user class may derive from a built-in class and call the
+/// inherited native on an ordinary instance, so the receiver's kind must be checked.
+macro_rules! receiver {
+    ($vm:expr, $depth:expr, $conv:ident, $kind:literal) => {
+        match $vm.peek($depth).$conv() {
+            Some(receiver) => receiver,
+            None => {
+                return Err(error!(
+                    ErrorKind::TypeError,
+                    "Expected a {} receiver but found '{}'.",
+                    $kind,
+                    $vm.peek($depth)
+                ));
+            }
+        }
+    };
+}
+
 #[inline(always)]
 fn check_num_args(num_args: usize, expected: usize) -> Result<(), Error> {
     if num_args != expected {
@@ -337,9 +355,7 @@ fn string_iter(vm: &mut Vm, num_args: usize) -> Result<Value, Error> {
     check_num_args(num_args, 0)?;
 
     let iter = vm.new_root_obj_string_iter(
-        vm.peek(0)
-            .try_as_obj_string()
-            .expect("Expected ObjString instance."),
+        receiver!(vm, 0, try_as_obj_string, "String"),
     );
     Ok(Value::ObjStringIter(iter.as_gc()))
 }
@@ -347,14 +363,14 @@ fn string_iter(vm: &mut Vm, num_args: usize) -> Result<Value, Error> {
 fn string_len(vm: &mut Vm, num_args: usize) -> Result<Value, Error> {
     check_num_args(num_args, 0)?;
 
-    let string = vm.peek(0).try_as_obj_string().expect("Expected ObjString.");
+    let string = receiver!(vm, 0, try_as_obj_string, "String");
     Ok(Value::Number(string.len() as f64))
 }
 
 fn string_is_alpha(vm: &mut Vm, num_args: usize) -> Result<Value, Error> {
     check_num_args(num_args, 0)?;
 
-    let string = vm.peek(0).try_as_obj_string().expect("Expected ObjString.");
+    let string = receiver!(vm, 0, try_as_obj_string, "String");
     let is_alpha = string.chars().all(|c| c.is_ascii_alphabetic());
     Ok(Value::Boolean(string.len() > 0 && is_alpha))
 }
@@ -362,7 +378,7 @@ fn string_is_alpha(vm: &mut Vm, num_args: usize) -> Result<Value, Error> {
 fn string_is_digit(vm: &mut Vm, num_args: usize) -> Result<Value, Error> {
     check_num_args(num_args, 0)?;
 
-    let string = vm.peek(0).try_as_obj_string().expect("Expected ObjString.");
+    let string = receiver!(vm, 0, try_as_obj_string, "String");
     let is_digit = string.chars().all(|c| c.is_ascii_digit());
     Ok(Value::Boolean(string.len() > 0 && is_digit))
 }
@@ -370,7 +386,7 @@ fn string_is_digit(vm: &mut Vm, num_args: usize) -> Result<Value, Error> {
 fn string_is_hexdigit(vm: &mut Vm, num_args: usize) -> Result<Value, Error> {
     check_num_args(num_args, 0)?;
 
-    let string = vm.peek(0).try_as_obj_string().expect("Expected ObjString.");
+    let string = receiver!(vm, 0, try_as_obj_string, "String");
     let is_hexdigit = string.chars().all(|c| c.is_ascii_hexdigit());
     Ok(Value::Boolean(string.len() > 0 && is_hexdigit))
 }
@@ -378,14 +394,14 @@ fn string_is_hexdigit(vm: &mut Vm, num_args: usize) -> Result<Value, Error> {
 fn string_count_chars(vm: &mut Vm, num_args: usize) -> Result<Value, Error> {
     check_num_args(num_args, 0)?;
 
-    let string = vm.peek(0).try_as_obj_string().expect("Expected ObjString.");
+    let string = receiver!(vm, 0, try_as_obj_string, "String");
     Ok(Value::Number(string.chars().count() as f64))
 }
 
 fn string_char_byte_index(vm: &mut Vm, num_args: usize) -> Result<Value, Error> {
     check_num_args(num_args, 1)?;
 
-    let string = vm.peek(1).try_as_obj_string().expect("Expected ObjString.");
+    let string = receiver!(vm, 1, try_as_obj_string, "String");
     let char_index = vm.peek(0).try_as_bounded_index(
         string.as_str().chars().count() as isize,
         "String",
@@ -409,7 +425,7 @@ fn string_char_byte_index(vm: &mut Vm, num_args: usize) -> Result<Value, Error> 
 fn string_find(vm: &mut Vm, num_args: usize) -> Result<Value, Error> {
     check_num_args(num_args, 2)?;
 
-    let string = vm.peek(2).try_as_obj_string().expect("Expected ObjString.");
+    let string = receiver!(vm, 2, try_as_obj_string, "String");
     let substring = vm.peek(1).try_as_obj_string().ok_or_else(|| {
         error!(
             ErrorKind::TypeError,
@@ -449,7 +465,7 @@ fn string_find(vm: &mut Vm, num_args: usize) -> Result<Value, Error> {
 fn string_replace(vm: &mut Vm, num_args: usize) -> Result<Value, Error> {
     check_num_args(num_args, 2)?;
 
-    let string = vm.peek(2).try_as_obj_string().expect("Expected ObjString.");
+    let string = receiver!(vm, 2, try_as_obj_string, "String");
     let old = vm.peek(1).try_as_obj_string().ok_or_else(|| {
         Error::with_message(
             ErrorKind::TypeError,
@@ -475,7 +491,7 @@ fn string_replace(vm: &mut Vm, num_args: usize) -> Result<Value, Error> {
 fn string_split(vm: &mut Vm, num_args: usize) -> Result<Value, Error> {
     check_num_args(num_args, 1)?;
 
-    let string = vm.peek(1).try_as_obj_string().expect("Expected ObjString.");
+    let string = receiver!(vm, 1, try_as_obj_string, "String");
     let delim = vm.peek(0).try_as_obj_string().ok_or_else(|| {
         Error::with_message(
             ErrorKind::TypeError,
@@ -499,7 +515,7 @@ fn string_split(vm: &mut Vm, num_args: usize) -> Result<Value, Error> {
 fn string_starts_with(vm: &mut Vm, num_args: usize) -> Result<Value, Error> {
     check_num_args(num_args, 1)?;
 
-    let string = vm.peek(1).try_as_obj_string().expect("Expected ObjString.");
+    let string = receiver!(vm, 1, try_as_obj_string, "String");
     let prefix = vm.peek(0).try_as_obj_string().ok_or_else(|| {
         Error::with_message(
             ErrorKind::TypeError,
@@ -513,7 +529,7 @@ fn string_starts_with(vm: &mut Vm, num_args: usize) -> Result<Value, Error> {
 fn string_ends_with(vm: &mut Vm, num_args: usize) -> Result<Value, Error> {
     check_num_args(num_args, 1)?;
 
-    let string = vm.peek(1).try_as_obj_string().expect("Expected ObjString.");
+    let string = receiver!(vm, 1, try_as_obj_string, "String");
     let prefix = vm.peek(0).try_as_obj_string().ok_or_else(|| {
         Error::with_message(
             ErrorKind::TypeError,
@@ -527,7 +543,7 @@ fn string_ends_with(vm: &mut Vm, num_args: usize) -> Result<Value, Error> {
 fn string_to_num(vm: &mut Vm, num_args: usize) -> Result<Value, Error> {
     check_num_args(num_args, 0)?;
 
-    let string = vm.peek(0).try_as_obj_string().expect("Expected ObjString.");
+    let string = receiver!(vm, 0, try_as_obj_string, "String");
     let num = string.parse::<f64>().or_else(|_| {
         Err(error!(
             ErrorKind::ValueError,
@@ -542,7 +558,7 @@ fn string_to_num(vm: &mut Vm, num_args: usize) -> Result<Value, Error> {
 fn string_to_bytes(vm: &mut Vm, num_args: usize) -> Result<Value, Error> {
     check_num_args(num_args, 0)?;
 
-    let string = vm.peek(0).try_as_obj_string().expect("Expected ObjString.");
+    let string = receiver!(vm, 0, try_as_obj_string, "String");
 
     let vec = vm.new_root_obj_vec();
     vec.borrow_mut().elements = string
@@ -557,7 +573,7 @@ fn string_to_bytes(vm: &mut Vm, num_args: usize) -> Result<Value, Error> {
 fn string_to_code_points(vm: &mut Vm, num_args: usize) -> Result<Value, Error> {
     check_num_args(num_args, 0)?;
 
-    let string = vm.peek(0).try_as_obj_string().expect("Expected ObjString.");
+    let string = receiver!(vm, 0, try_as_obj_string, "String");
 
     let vec = vm.new_root_obj_vec();
     vec.borrow_mut().elements = string
@@ -572,10 +588,7 @@ fn string_to_code_points(vm: &mut Vm, num_args: usize) -> Result<Value, Error> {
 
 fn string_iter_next(vm: &mut Vm, num_args: usize) -> Result<Value, Error> {
     check_num_args(num_args, 0)?;
-    let iter = vm
-        .peek(0)
-        .try_as_obj_string_iter()
-        .expect("Expected ObjIter instance.");
+    let iter = receiver!(vm, 0, try_as_obj_string_iter, "StringIter");
     let iterable = iter.borrow().iterable;
     let next = {
         let mut borrowed_iter = iter.borrow_mut();
@@ -619,7 +632,7 @@ pub fn new_root_obj_tuple_class(
 fn tuple_len(vm: &mut Vm, num_args: usize) -> Result<Value, Error> {
     check_num_args(num_args, 0)?;
 
-    let tuple = vm.peek(0).try_as_obj_tuple().expect("Expected ObjTuple");
+    let tuple = receiver!(vm, 0, try_as_obj_tuple, "Tuple");
     Ok(Value::Number(tuple.elements.len() as f64))
 }
 
@@ -627,9 +640,7 @@ fn tuple_iter(vm: &mut Vm, num_args: usize) -> Result<Value, Error> {
     check_num_args(num_args, 0)?;
 
     let iter = vm.new_root_obj_tuple_iter(
-        vm.peek(0)
-            .try_as_obj_tuple()
-            .expect("Expected ObjTuple instance."),
+        receiver!(vm, 0, try_as_obj_tuple, "Tuple"),
     );
     Ok(Value::ObjTupleIter(iter.as_gc()))
 }
@@ -649,10 +660,7 @@ pub fn new_root_obj_tuple_iter_class(
 
 fn tuple_iter_next(vm: &mut Vm, num_args: usize) -> Result<Value, Error> {
     check_num_args(num_args, 0)?;
-    let iter = vm
-        .peek(0)
-        .try_as_obj_tuple_iter()
-        .expect("Expected ObjTupleIter instance.");
+    let iter = receiver!(vm, 0, try_as_obj_tuple_iter, "TupleIter");
     let next = {
         let mut borrowed_iter = iter.borrow_mut();
         borrowed_iter.next()
@@ -681,7 +689,7 @@ pub fn new_root_obj_vec_class(
 fn vec_push(vm: &mut Vm, num_args: usize) -> Result<Value, Error> {
     check_num_args(num_args, 1)?;
 
-    let vec = vm.peek(1).try_as_obj_vec().expect("Expected ObjVec");
+    let vec = receiver!(vm, 1, try_as_obj_vec, "Vec");
 
     if vec.borrow().elements.len() >= common::VEC_ELEMS_MAX {
         return Err(error!(ErrorKind::RuntimeError, "Vec max capcity reached."));
@@ -695,7 +703,7 @@ fn vec_push(vm: &mut Vm, num_args: usize) -> Result<Value, Error> {
 fn vec_pop(vm: &mut Vm, num_args: usize) -> Result<Value, Error> {
     check_num_args(num_args, 0)?;
 
-    let vec = vm.peek(0).try_as_obj_vec().expect("Expected ObjVec");
+    let vec = receiver!(vm, 0, try_as_obj_vec, "Vec");
     let mut borrowed_vec = vec.borrow_mut();
     borrowed_vec.elements.pop().ok_or_else(|| {
         Error::with_message(
@@ -708,7 +716,7 @@ fn vec_pop(vm: &mut Vm, num_args: usize) -> Result<Value, Error> {
 fn vec_len(vm: &mut Vm, num_args: usize) -> Result<Value, Error> {
     check_num_args(num_args, 0)?;
 
-    let vec = vm.peek(0).try_as_obj_vec().expect("Expected ObjVec");
+    let vec = receiver!(vm, 0, try_as_obj_vec, "Vec");
     let borrowed_vec = vec.borrow();
     Ok(Value::Number(borrowed_vec.elements.len() as f64))
 }
@@ -717,9 +725,7 @@ fn vec_iter(vm: &mut Vm, num_args: usize) -> Result<Value, Error> {
     check_num_args(num_args, 0)?;
 
     let iter = vm.new_root_obj_vec_iter(
-        vm.peek(0)
-            .try_as_obj_vec()
-            .expect("Expected ObjVec instance."),
+        receiver!(vm, 0, try_as_obj_vec, "Vec"),
     );
     Ok(Value::ObjVecIter(iter.as_gc()))
 }
@@ -738,10 +744,7 @@ pub fn new_root_obj_vec_iter_class(
 
 fn vec_iter_next(vm: &mut Vm, num_args: usize) -> Result<Value, Error> {
     check_num_args(num_args, 0)?;
-    let iter = vm
-        .peek(0)
-        .try_as_obj_vec_iter()
-        .expect("Expected ObjVecIter instance.");
+    let iter = receiver!(vm, 0, try_as_obj_vec_iter, "VecIter");
     let next = {
         let mut borrowed_iter = iter.borrow_mut();
         borrowed_iter.next()
@@ -766,9 +769,7 @@ fn range_iter(vm: &mut Vm, num_args: usize) -> Result<Value, Error> {
     check_num_args(num_args, 0)?;
 
     let iter = vm.new_root_obj_range_iter(
-        vm.peek(0)
-            .try_as_obj_range()
-            .expect("Expected ObjRange instance."),
+        receiver!(vm, 0, try_as_obj_range, "Range"),
     );
     Ok(Value::ObjRangeIter(iter.as_gc()))
 }
@@ -777,10 +778,7 @@ fn range_iter(vm: &mut Vm, num_args: usize) -> Result<Value, Error> {
 
 fn range_iter_next(vm: &mut Vm, num_args: usize) -> Result<Value, Error> {
     check_num_args(num_args, 0)?;
-    let iter = vm
-        .peek(0)
-        .try_as_obj_range_iter()
-        .expect("Expected ObjIter instance.");
+    let iter = receiver!(vm, 0, try_as_obj_range_iter, "RangeIter");
     let next = {
         let mut borrowed_iter = iter.borrow_mut();
         borrowed_iter.next()
@@ -825,10 +823,7 @@ pub fn new_root_obj_hash_map_class(
 fn hash_map_has_key(vm: &mut Vm, num_args: usize) -> Result<Value, Error> {
     check_num_args(num_args, 1)?;
 
-    let hash_map = vm
-        .peek(1)
-        .try_as_obj_hash_map()
-        .expect("Expected ObjHashMap.");
+    let hash_map = receiver!(vm, 1, try_as_obj_hash_map, "HashMap");
 
     let key = validate_hash_map_key(vm.peek(0))?;
     let borrowed_hash_map = hash_map.borrow();
@@ -840,10 +835,7 @@ fn hash_map_has_key(vm: &mut Vm, num_args: usize) -> Result<Value, Error> {
 fn hash_map_get(vm: &mut Vm, num_args: usize) -> Result<Value, Error> {
     check_num_args(num_args, 1)?;
 
-    let hash_map = vm
-        .peek(1)
-        .try_as_obj_hash_map()
-        .expect("Expected ObjHashMap");
+    let hash_map = receiver!(vm, 1, try_as_obj_hash_map, "HashMap");
 
     let key = validate_hash_map_key(vm.peek(0))?;
 
@@ -854,10 +846,7 @@ fn hash_map_get(vm: &mut Vm, num_args: usize) -> Result<Value, Error> {
 fn hash_map_insert(vm: &mut Vm, num_args: usize) -> Result<Value, Error> {
     check_num_args(num_args, 2)?;
 
-    let hash_map = vm
-        .peek(2)
-        .try_as_obj_hash_map()
-        .expect("Expected ObjHashMap");
+    let hash_map = receiver!(vm, 2, try_as_obj_hash_map, "HashMap");
 
     let key = validate_hash_map_key(vm.peek(1))?;
     let value = vm.peek(0);
@@ -872,10 +861,7 @@ fn hash_map_insert(vm: &mut Vm, num_args: usize) -> Result<Value, Error> {
 fn hash_map_remove(vm: &mut Vm, num_args: usize) -> Result<Value, Error> {
     check_num_args(num_args, 1)?;
 
-    let hash_map = vm
-        .peek(1)
-        .try_as_obj_hash_map()
-        .expect("Expected ObjHashMap");
+    let hash_map = receiver!(vm, 1, try_as_obj_hash_map, "HashMap");
 
     let key = validate_hash_map_key(vm.peek(0))?;
 
@@ -889,10 +875,7 @@ fn hash_map_remove(vm: &mut Vm, num_args: usize) -> Result<Value, Error> {
 fn hash_map_clear(vm: &mut Vm, num_args: usize) -> Result<Value, Error> {
     check_num_args(num_args, 0)?;
 
-    let hash_map = vm
-        .peek(0)
-        .try_as_obj_hash_map()
-        .expect("Expected ObjHashMap");
+    let hash_map = receiver!(vm, 0, try_as_obj_hash_map, "HashMap");
     let mut borrowed_hash_map = hash_map.borrow_mut();
     borrowed_hash_map.elements.clear();
     Ok(Value::None)
@@ -901,10 +884,7 @@ fn hash_map_clear(vm: &mut Vm, num_args: usize) -> Result<Value, Error> {
 fn hash_map_len(vm: &mut Vm, num_args: usize) -> Result<Value, Error> {
     check_num_args(num_args, 0)?;
 
-    let hash_map = vm
-        .peek(0)
-        .try_as_obj_hash_map()
-        .expect("Expected ObjHashMap");
+    let hash_map = receiver!(vm, 0, try_as_obj_hash_map, "HashMap");
     let borrowed_hash_map = hash_map.borrow();
     Ok(Value::Number(borrowed_hash_map.elements.len() as f64))
 }
@@ -912,10 +892,7 @@ fn hash_map_len(vm: &mut Vm, num_args: usize) -> Result<Value, Error> {
 fn hash_map_keys(vm: &mut Vm, num_args: usize) -> Result<Value, Error> {
     check_num_args(num_args, 0)?;
 
-    let hash_map = vm
-        .peek(0)
-        .try_as_obj_hash_map()
-        .expect("Expected ObjHashMap");
+    let hash_map = receiver!(vm, 0, try_as_obj_hash_map, "HashMap");
     let borrowed_hash_map = hash_map.borrow();
     let keys: Vec<_> = borrowed_hash_map.elements.keys().map(|&v| v).collect();
     let obj_keys = vm.new_root_obj_vec();
@@ -926,10 +903,7 @@ fn hash_map_keys(vm: &mut Vm, num_args: usize) -> Result<Value, Error> {
 fn hash_map_values(vm: &mut Vm, num_args: usize) -> Result<Value, Error> {
     check_num_args(num_args, 0)?;
 
-    let hash_map = vm
-        .peek(0)
-        .try_as_obj_hash_map()
-        .expect("Expected ObjHashMap");
+    let hash_map = receiver!(vm, 0, try_as_obj_hash_map, "HashMap");
     let borrowed_hash_map = hash_map.borrow();
     let values: Vec<_> = borrowed_hash_map.elements.values().map(|&v| v).collect();
     let obj_values = vm.new_root_obj_vec();
@@ -940,10 +914,7 @@ fn hash_map_values(vm: &mut Vm, num_args: usize) -> Result<Value, Error> {
 fn hash_map_items(vm: &mut Vm, num_args: usize) -> Result<Value, Error> {
     check_num_args(num_args, 0)?;
 
-    let hash_map = vm
-        .peek(0)
-        .try_as_obj_hash_map()
-        .expect("Expected ObjHashMap");
+    let hash_map = receiver!(vm, 0, try_as_obj_hash_map, "HashMap");
     let borrowed_hash_map = hash_map.borrow();
     let root_obj_pairs: Vec<_> = borrowed_hash_map
         .elements
@@ -1048,10 +1019,7 @@ fn fiber_init(vm: &mut Vm, num_args: usize) -> Result<Value, Error> {
 }
 
 fn fiber_call(vm: &mut Vm, num_args: usize) -> Result<Value, Error> {
-    let fiber = vm
-        .peek(num_args)
-        .try_as_obj_fiber()
-        .expect("Expected ObjFiber.");
+    let fiber = receiver!(vm, num_args, try_as_obj_fiber, "Fiber");
     let (is_new, arity) = {
         let borrowed_fiber = fiber.borrow();
         (borrowed_fiber.is_new(), borrowed_fiber.call_arity)
@@ -1094,7 +1062,7 @@ fn fiber_yield(vm: &mut Vm, num_args: usize) -> Result<Value, Error> {
 
 fn fiber_has_finished(vm: &mut Vm, num_args: usize) -> Result<Value, Error> {
     check_num_args(num_args, 0)?;
-    let fiber = vm.peek(0).try_as_obj_fiber().expect("Expected ObjFiber.");
+    let fiber = receiver!(vm, 0, try_as_obj_fiber, "Fiber");
     let has_finished = fiber.borrow().has_finished();
     Ok(Value::Boolean(has_finished))
 }
